@@ -179,6 +179,7 @@ type Instance struct {
 
 	Pending       []delivery
 	QuitClosed    bool
+	StartFailed   bool // Start returned an error (the node process exits)
 	Dead          bool
 	Started       bool
 	Stopped       bool
@@ -424,7 +425,7 @@ func (inst *Instance) Open() error {
 	}
 	inst.DB = NewSimDB(inner, w.S, inst)
 	inst.srv = newFakeServer(w.Node)
-	inst.QuitClosed, inst.Dead, inst.Started, inst.Stopped, inst.StopRequested = false, false, false, false, false
+	inst.QuitClosed, inst.Dead, inst.Started, inst.Stopped, inst.StopRequested, inst.StartFailed = false, false, false, false, false, false
 	inst.handlerG, inst.workerG = nil, nil
 	inst.Pending = nil
 	inst.Current = ""
@@ -527,6 +528,68 @@ func (inst *Instance) StartSolo() error {
 	return err
 }
 
+// StartMoving runs WalletManager.Start while the environment keeps changing:
+// between the starter's gates (listener registered, every write transaction of
+// the catch-up, chain queries when node gates are on) the node may connect
+// blocks or reorganise, up to maxEnv times. Tips announced once the listener is
+// registered are queued for the handler, as the node's chain goroutine queues
+// them into the wallet's buffered channel - so a block can be both inside the
+// catch-up range and in the queue. A Start that fails because the chain moved
+// under it is a process exit (the node refuses to start): the process is
+// started again with the chain at rest.
+//
+//go:norace
+func (inst *Instance) StartMoving(t *Tape, maxEnv int) error {
+	w := inst.W
+	s := w.S
+	var err error
+	g := inst.StartAsync(&err)
+	env := t.Int(maxEnv + 1)
+	moved := 0
+	for i := 0; i < 1<<20 && !g.done; i++ {
+		if s.CrashRequested {
+			break
+		}
+		if env > 0 && t.Bool(35) {
+			env--
+			moved++
+			if t.Bool(70) {
+				w.MineOnTip(t, 70)
+			} else {
+				w.Fork(t, 1+t.Int(3), 1+t.Int(2), 50, 2)
+			}
+			w.Stat("op.env_during_start")
+			if len(inst.Pending) > 0 {
+				w.Stat("probe.tip_queued_during_start")
+			}
+			continue
+		}
+		if !s.SoloStep(g) {
+			break
+		}
+	}
+	inst.finishStart()
+	if s.CrashRequested || inst.Dead {
+		return ErrCrashed
+	}
+	if !g.done {
+		return fmt.Errorf("Start did not finish: %v", s.ParkedSummary())
+	}
+	if err != nil && moved > 0 {
+		// the node process exits; the operator starts it again
+		w.Stat("probe.start_failed_while_chain_moved")
+		w.Logf("Start failed while the chain moved (%v): process restarted", err)
+		inst.StartFailed = true
+		inst.Crash()
+		w.Stats["fault.crash"]-- // not an injected crash
+		if e := inst.Open(); e != nil {
+			return fmt.Errorf("reopen after failed start: %w", e)
+		}
+		return inst.StartSolo()
+	}
+	return err
+}
+
 // inject hands a queued notification to the wallet's listener, as the node's
 // chain goroutine would.
 //
@@ -554,7 +617,7 @@ func (inst *Instance) inject(d delivery) {
 func (w *World) Announce(b *BlockRec) {
 	for _, inst := range w.Insts {
 		inst.srv0SetTip(w.Node.Tip())
-		if inst.Started && !inst.Dead && !inst.Stopped && len(inst.srvListeners()) > 0 {
+		if inst.listening() {
 			// the node hands the listener its own decoded copy
 			blk, err := massutil.NewBlockFromBytes(b.Raw, wire.DB)
 			if err != nil {
@@ -571,11 +634,22 @@ func (w *World) Announce(b *BlockRec) {
 func (w *World) AnnounceTx(tx *wire.MsgTx) {
 	w.Node.RegisterTx(tx)
 	for _, inst := range w.Insts {
-		if inst.Started && !inst.Dead && !inst.Stopped && len(inst.srvListeners()) > 0 {
+		if inst.listening() {
 			cp := *tx
 			inst.Pending = append(inst.Pending, delivery{tx: &cp})
 		}
 	}
+}
+
+// listening reports whether the node would queue a notification for this
+// instance: its listener is registered (WalletManager.Start registers it first
+// thing, before the catch-up; Stop unregisters it) and the process is alive.
+// Notifications arriving before the handler goroutine exists wait in the
+// wallet's buffered channel; the simulator keeps them in Pending (same FIFO).
+//
+//go:norace
+func (inst *Instance) listening() bool {
+	return !inst.Dead && !inst.Stopped && !inst.StartFailed && len(inst.srvListeners()) > 0
 }
 
 //go:norace
